@@ -110,7 +110,11 @@ SetVers(v) == /\ Versions # {} /\ v # cvers /\ cvers' = v /\ hist' = Append(hist
 NonEmpty == {x \in SUBSET Suites : x # {}}
 \* an optional shape restricts which operation may come at which position (used to enumerate families of histories
 \* exhaustively, e.g. "set the client-certificate policy, connect, any change, connect, connect")
-ShapeOf == CASE ShapeName = "cert_x_cc" -> <<{"auth"}, {"connect"}, {"rotate", "ssuites", "csuites", "auth", "disabled", "vers", "tamper", "connect"}, {"connect"}, {"connect"}>>
+AnyOp == {"rotate", "ssuites", "csuites", "auth", "disabled", "vers", "tamper", "connect"}
+ShapeOf == CASE ShapeName = "cert_x_cc" -> <<{"auth"}, {"connect"}, AnyOp, {"connect"}, {"connect"}>>
+             \* connect, two arbitrary operations, connect / connect, one operation, connect
+             [] ShapeName = "c_xx_c" -> <<{"connect"}, AnyOp, AnyOp, {"connect"}>>
+             [] ShapeName = "c_x_c" -> <<{"connect"}, AnyOp, {"connect"}>>
              [] OTHER -> <<>>
 Allowed(name) == IF Len(hist) >= Len(ShapeOf) THEN TRUE ELSE name \in ShapeOf[Len(hist) + 1]
 Next == /\ Len(hist) < MaxOps
